@@ -103,12 +103,41 @@ example : decFrame .handshake [0x08, 0x00] = .err .wrongType := by decide   -- S
 /-- … and so is `NoFrames`, whenever it is raised. -/
 theorem noframes_is_protocol_violation : frameErrKind .noFrames = "ProtocolViolation" := by rfl
 
-/-- What `read_plain_packet` does with an empty payload, as a function of the generated flag
-(`readPlainRejectsEmpty` = the function mentions `Error::NoFrames`): accepted with zero frames when the flag
-is off.  See known finding `noframes:accepted`. -/
-theorem empty_payload_outcome (t : PktType) :
-    readPlain t [] = if readPlainRejectsEmpty then .err [] .noFrames else .ok [] := by
-  cases h : readPlainRejectsEmpty <;> simp [readPlain, h, readPlainRun, FrameReader.next]
+/-- **RFC 9000 §12.4, no frames**: `read_plain_packet` refuses an empty payload with `Error::NoFrames`, which is a
+PROTOCOL_VIOLATION (fix-C03-no-frames; `readPlainRejectsEmpty` is read from the source on every run: on a tree whose
+`read_plain_packet` does not raise `Error::NoFrames` it is `false` and this proof fails).  Before the fix the packet
+was accepted with zero frames (known finding `noframes:accepted`, kept as the `example` below). -/
+theorem empty_payload_rejected (t : PktType) :
+    readPlain t [] = .err [] .noFrames ∧ frameErrKind .noFrames = "ProtocolViolation" := by
+  have h : readPlainRejectsEmpty = true := by decide
+  exact ⟨by simp [readPlain, h], rfl⟩
+
+/-- what the bare frame loop does on an empty payload (= the unfixed function): accepts, no frames -/
+example : readPlainRun 1 .oneRtt [] [] = .ok [] := by decide
+
+/-- … hence **every accepted packet contains at least one frame**. -/
+theorem accepted_packet_has_a_frame (t : PktType) (bs : Bytes) (fs : List Frame) (h : readPlain t bs = .ok fs) :
+    fs ≠ [] := by
+  have hflag : readPlainRejectsEmpty = true := by decide
+  unfold readPlain at h
+  cases bs with
+  | nil => simp [hflag] at h
+  | cons b bs =>
+    simp only [List.isEmpty_cons, Bool.false_and, Bool.false_eq_true, if_false] at h
+    unfold readPlainRun at h
+    cases hn : FrameReader.next t (b :: bs) with
+    | eof => simp [FrameReader.next] at hn; split at hn <;> (try split at hn) <;> cases hn
+    | panic s => rw [hn] at h; cases h
+    | frame f rest =>
+      rw [hn] at h
+      have := run_ok_len t _ rest [f] fs h
+      intro e; subst e; simp at this
+    | err k =>
+      rw [hn] at h
+      cases hk : ferrOf k <;> simp [hk] at h
+
+example : readPlain .oneRtt [0x01] = .ok [.ping] := by decide   -- a PING-only packet is accepted
+example : readPlain .oneRtt [0x00, 0x00] = .ok [.padding, .padding] := by decide   -- PADDING frames are frames
 
 /-- `NoFrames` is never produced by decoding a non-empty payload. -/
 theorem noframes_only_for_empty (bs : Bytes) (t : PktType) (fr : List Frame) (h : readPlain t bs = .err fr .noFrames) :
